@@ -11,6 +11,7 @@ var Registry = map[string]func(*core.Ctx){
 	"C07": C07,
 	"C08": C08,
 	"C09": C09,
+	"C10": C10,
 	"C11": C11,
 	"C12": C12,
 	"C13": C13,
